@@ -71,16 +71,23 @@ def links_typed(B, verts, links):
     return B.and_(*acc)
 
 
-def inv02(B, members, unis):
-    """v in u.vertices <=> u in v.universes ; no duplicates in either list"""
+def inv02(B, members, unis, public=False):
+    """v in u.vertices <=> u in v.universes ; no duplicates in either list.
+    ``public``: read both lists through the public accessors (independent of the private representation)"""
+    if public:
+        mem = {id(u): B.get_public(u, "vertices") for u in unis}
+        uni = {id(v): B.get_public(v, "universes") for v in members}
+    else:
+        mem = {id(u): B.get_field(u, "_vertices") for u in unis}
+        uni = {id(v): B.get_field(v, "_universes") for v in members}
     acc = []
     for u in unis:
-        ul = B.get_field(u, "_vertices")
+        ul = mem[id(u)]
         acc.append(B.nodup(ul))
         for v in members:
-            acc.append(B.iff(B.contains(ul, v), B.contains(B.get_field(v, "_universes"), u)))
+            acc.append(B.iff(B.contains(ul, v), B.contains(uni[id(v)], u)))
     for v in members:
-        acc.append(B.nodup(B.get_field(v, "_universes")))
+        acc.append(B.nodup(uni[id(v)]))
     return B.and_(*acc)
 
 
